@@ -294,3 +294,29 @@ def mixed_array(u1, u2, u3):
     ts = RDScript(base_system(), [UnitValue(0.0, "s"), UnitValue(2.0, Units(SYS[k1], UnitsDimensions(0, 1, 0))), UnitValue(3.0e3, Units(SYS[k2], UnitsDimensions(0, 1, 0)))], units_system=SYS[k3]).t_sample
     ok = ok and close(si(ts.get_at(1)), 2.0 * F(k1, (0, 1, 0))) and close(si(ts.get_at(2)), 3.0e3 * F(k2, (0, 1, 0)))
     return ok
+
+
+def default_tmax(u1, u3, form):
+    """t_max left at its default is the LAST sample time as a physical quantity, whatever units the sample times were written in
+    (list of quantities, quantity array with its own units, {"value", "units"} dictionary), in the script, in its dictionary
+    and in what reaches the engine"""
+    from strengths.rdscript import rdscript_to_dict, rdscript_from_dict
+    from strengths.rdsystem import rdsystem_to_dict
+    k1, k3 = KEYS[u1 % 11], KEYS[u3 % 11]
+    tu = Units(SYS[k1], UnitsDimensions(0, 1, 0))
+    last_si = 3.0 * F(k1, (0, 1, 0))
+    step = UnitValue(0.25 * last_si, "s")          # a time step that is explicit too, so that only t_sample / t_max vary
+    if form == 0:
+        sc = RDScript(base_system(), [UnitValue(0.0, tu), UnitValue(1.5, tu), UnitValue(3.0, tu)], time_step=step, units_system=SYS[k3])
+    elif form == 1:
+        sc = RDScript(base_system(), UnitArray([0.0, 1.5, 3.0], tu), time_step=step, units_system=SYS[k3])
+    else:
+        sc = rdscript_from_dict({"system": rdsystem_to_dict(base_system()), "t_sample": {"value": [0.0, 1.5, 3.0], "units": str(tu)}, "time_step": str(step),
+                                 "units": {"space": SYS[k3]["space"], "time": SYS[k3]["time"], "quantity": SYS[k3]["quantity"]}})
+    if not close(si(sc.t_max), last_si):
+        return False
+    back = rdscript_from_dict(rdscript_to_dict(sc))
+    if not close(si(back.t_max), last_si):
+        return False
+    a = abi_in_si(sc, "euler", k3)
+    return close(a["t_max"], last_si) and close(a["t_sample"][-1], last_si)
